@@ -179,7 +179,7 @@ theorem cm_setData_canonical (b₁ b₂ s1 s2 s3 s4 v : Bytes) (h1 : 26 ≤ b₁
   rw [cmSetData_eq b₁ s1 s2 s3 s4 v h1, cmSetData_eq b₂ s1 s2 s3 s4 v h2, hh]
 
 /-! ### interface status -/
-theorem if_setData (b ids v : Bytes) (hb : 36 ≤ b.length) (hi : ids.length < 65535) (hv : v.length < 65536) :
+theorem if_setData (b ids v : Bytes) (hb : 36 ≤ b.length) (hi : ids.length < 65536) (hv : v.length < 65536) :
     let o := ifSetData b ids v
     let pad := ids.length % 2
     o.take 36 = b.take 36 ∧ o.length = 36 + 2 + ids.length + pad + 2 + v.length ∧
